@@ -335,4 +335,152 @@ Section Sim.
           rewrite (Kopen_last q b' [I nm ids ks] us nq iq kq Hqn Esib).
           rewrite Hq0. reflexivity.
   Qed.
+
+  (* one successful iteration of the occurrence loop, with the fuel re-based *)
+  Lemma occ_step_K : forall d n us m k,
+    WF d -> lt_max n (d_max d) = true -> starts try_leaf d us = true ->
+    (if d_grp d then m = 0 else try_leaf (d_leaf d) us = Some m) ->
+    mbind (occl d (S (length us)) n us) k =
+    mbind (seql (d_kids d) (skipn m us)) (fun ks us' =>
+      app_res (if d_tgt d then [I (d_name d) (map u_id (firstn m us)) ks] else [])
+        (mbind (occl d (S (length us')) (S n) us')
+           (fun is us'' => k (I (d_name d) (map u_id (firstn m us)) ks :: is) us''))).
+  Proof.
+    intros d n us m k Hd Hlt Hst Hm. rewrite mbind_occ_S, Hlt, Hst. cbn [andb].
+    transitivity (mbind (sp_inst try_leaf d us) (fun i us' =>
+        app_res (if d_tgt d then [i] else [])
+          (mbind (occl d (S (length us')) (S n) us') (fun is us'' => k (i :: is) us'')))).
+    - apply mbind_ext_strong. intros e a us' E.
+      pose proof (sp_inst_shrinks try_leaf d Hd) as Hsh.
+      destruct (Hsh _ _ _ _ E) as [_ Hl]. specialize (Hl Hst).
+      rewrite (occ_loop_irrel try_leaf (sp_inst try_leaf) d Hsh (length us) (S (length us')) (S n) us'); [reflexivity|lia|lia].
+    - rewrite (mbind_inst d us _ m Hm). reflexivity.
+  Qed.
+
+  (* ---- recNext ------------------------------------------------------------------------------------ *)
+  Lemma rec_next_K : forall top q b us,
+    InvS (top :: q :: b) -> starts try_leaf (e_decl top) us = false ->
+    match rec_next (top :: q :: b) None with
+    | ROk stk' tgt' => InvS stk' /\ app_res (tl_of tgt') (Ktop stk' us) = Ktop (top :: q :: b) us
+    | RErr t => Ktop (top :: q :: b) us = ([], t)
+    | RPanic _ => False
+    end.
+  Proof.
+    intros top q b us (Hwf & Hcur & Hop & Htp & Hlt) Hst.
+    destruct Hop as (Hqn & Hnth & Hwq & Hqbot & Hop').
+    destruct Hqn as (nq & iq & kq & Hqn).
+    cbn [Ktop]. rewrite mbind_occ_S, Hst, andb_false_r.
+    unfold rec_next.
+    destruct (e_occ top <? d_min (e_decl top)); [reflexivity|].
+    destruct (S (e_cur q) <? length (d_kids (e_decl q))) eqn:Esib.
+    - apply Nat.ltb_lt in Esib.
+      destruct (nth_error (d_kids (e_decl q)) (S (e_cur q))) as [k|] eqn:Ek;
+        [|apply nth_error_None in Ek; lia].
+      split.
+      + cbn [InvS e_decl e_cur e_occ]. split; [eapply nth_error_WF; eauto|]. split; [reflexivity|]. split.
+        * cbn [opens_ok]. split; [eexists _, _, _; cbn; exact Hqn|].
+          split; [cbn; exact Ek|]. split; [cbn; exact Hwq|].
+          split; [unfold is_bottom; cbn; exact Hqbot|cbn; exact Hop'].
+        * split; [|apply (lt_max_0 try_leaf); eapply nth_error_WF; eauto].
+          cbn [map e_decl]. apply tp_push; [eapply nth_error_In; eauto|].
+          destruct Htp as [_ Htp]. exact Htp.
+      + cbn [tl_of]. rewrite app_res_nil. cbn [Ktop e_decl e_occ].
+        rewrite (Kopen_sibling q b [] us nq iq kq k Hqn Ek). rewrite app_nil_r, Hqn. reflexivity.
+    - apply Nat.ltb_ge in Esib.
+      destruct (rec_done_K b q None us nq iq kq Hqn Hwq Hop') as (stk' & tgt' & Hr & Hinv & HK).
+      + destruct Htp as [_ Htp]. exact Htp.
+      + intros H. congruence.
+      + exact Hqbot.
+      + rewrite Hr. split; [exact Hinv|]. rewrite HK. cbn [tl_of]. rewrite app_res_nil.
+        rewrite (Kopen_last q b [] us nq iq kq Hqn Esib). rewrite app_nil_r. reflexivity.
+  Qed.
+
+  (* ---- a match: the frame gets its node; push the first child or finish the instance ------------------ *)
+  Lemma instantiate_K : forall top q b us n st,
+    InvS (top :: q :: b) -> read_rec try_leaf (e_decl top) us = Some n ->
+    match instantiate top (q :: b) None n us false st with
+    | Cont st' => InvS (m_stk st') /\ Kst st' = Ktop (top :: q :: b) us
+    | Ret _ _ => False
+    end.
+  Proof.
+    intros top q b us n st Hinv Hrr.
+    pose proof Hinv as (Hwf & Hcur & Hop & Htp & Hlt).
+    destruct (read_rec_some try_leaf _ _ _ Hrr) as [Hst Hm].
+    destruct (WF_parts try_leaf _ Hwf) as (Hshape & _ & _).
+    assert (Hn : (length us <? n) = false).
+    { apply Nat.ltb_ge. destruct (d_grp (e_decl top)); [subst n; lia|].
+      apply Hshape in Hm. lia. }
+    pose proof Hop as (Hqn & Hnth & Hwq & Hqbot & Hop').
+    destruct Hqn as (nq & iq & kq & Hqn).
+    unfold instantiate. rewrite Hn, Hqn. cbn [Ktop].
+    rewrite (occ_step_K (e_decl top) (e_occ top) us n _ Hwf Hlt Hst Hm).
+    destruct (d_kids (e_decl top)) as [|k r] eqn:Ekids.
+    - (* no children: the instance is complete *)
+      rewrite mbind_seq_nil.
+      set (cur1 := E (e_decl top) (Some (I (d_name (e_decl top)) (map u_id (firstn n us)) [])) (e_cur top) (e_occ top)).
+      destruct (rec_done_K (q :: b) cur1 None (skipn n us) (d_name (e_decl top)) (map u_id (firstn n us)) [])
+        as (stk' & tgt' & Hr & Hinv' & HK).
+      + reflexivity.
+      + exact Hwf.
+      + exact Hop.
+      + exact Htp.
+      + intros H. congruence.
+      + intros H. discriminate.
+      + rewrite Hr. cbn [of_rres]. split; [exact Hinv'|].
+        unfold Kst. cbn [m_tgt m_stk m_rest]. rewrite HK. cbn [tl_of]. rewrite app_res_nil. reflexivity.
+    - (* push the first child *)
+      split.
+      + cbn [m_stk InvS e_decl e_cur e_occ].
+        assert (Hk : nth_error (d_kids (e_decl top)) 0 = Some k) by (rewrite Ekids; reflexivity).
+        split; [exact (nth_error_WF _ _ _ Hwf Hk)|]. split; [reflexivity|]. split.
+        * cbn [opens_ok]. split; [eexists _, _, _; cbn; reflexivity|].
+          split; [cbn; rewrite Hcur; exact Hk|]. split; [cbn; exact Hwf|].
+          split; [intros H; discriminate|cbn; exact Hop].
+        * split; [|apply (lt_max_0 try_leaf); exact (nth_error_WF _ _ _ Hwf Hk)].
+          cbn [map e_decl]. apply tp_push; [exact (nth_error_In _ _ Hk)|]. exact Htp.
+      + unfold Kst. cbn [m_tgt m_stk m_rest tl_of]. rewrite app_res_nil.
+        cbn [Ktop e_decl e_occ]. rewrite mbind_seq_cons.
+        apply mbind_ext. intros is1 us1. cbn [Kopen e_node e_decl e_cur e_occ].
+        rewrite Hcur, Ekids. cbn [skipn]. apply mbind_ext. intros ks us2. reflexivity.
+  Qed.
+
+  (* ---- one iteration of HierarchyReader.Read's loop -------------------------------------------------- *)
+  Definition std_fin (us : list unt) : term := match us with [] => TEof | _ :: _ => TErrUnexpected end.
+
+  Lemma Ktop_single : forall top us,
+    InvS [top] -> Ktop [top] us = ([], fin us).
+  Proof.
+    intros top us (_ & _ & _ & _ & Hlt & Hmin). cbn [Ktop].
+    rewrite mbind_occ_S, Hlt, Hmin. reflexivity.
+  Qed.
+
+  Lemma hstep_K : forall st, InvS (m_stk st) -> m_tgt st = None ->
+    (length (m_stk st) <= 1 -> fin (m_rest st) = std_fin (m_rest st)) ->
+    match hstep try_leaf st with
+    | Cont st' => InvS (m_stk st') /\ Kst st' = Kst st
+    | Ret (OTerm t) _ => Kst st = ([], t)
+    | Ret (ODeliver _) _ => False
+    end.
+  Proof.
+    intros [stk tgt us] Hinv Htgt Hfin. cbn [m_stk m_tgt m_rest] in *. subst tgt.
+    unfold hstep, Kst. cbn [m_stk m_tgt m_rest tl_of]. rewrite app_res_nil.
+    destruct stk as [|top opens]; [destruct Hinv|].
+    destruct opens as [|q b].
+    - (* only the root frame is left *)
+      cbn [length]. rewrite (Ktop_single top us Hinv), Hfin by (cbn; lia).
+      destruct us; reflexivity.
+    - cbn [length].
+      assert (Hlen : (S (S (length b)) <=? 1) = false) by (apply Nat.leb_gt; lia).
+      rewrite Hlen.
+      destruct us as [|u r].
+      + pose proof (rec_next_K top q b [] Hinv) as H.
+        destruct Hinv as (Hwf & _). specialize (H (starts_nil try_leaf _ Hwf)).
+        destruct (rec_next (top :: q :: b) None) as [stk' tgt'|t|s]; cbn [of_rres]; auto; contradiction.
+      + destruct (read_rec try_leaf (e_decl top) (u :: r)) as [n|] eqn:Err.
+        * pose proof (instantiate_K top q b (u :: r) n (M (top :: q :: b) None (u :: r)) Hinv Err) as H.
+          destruct (instantiate top (q :: b) None n (u :: r) false _); auto; contradiction.
+        * apply read_rec_none in Err.
+          pose proof (rec_next_K top q b (u :: r) Hinv Err) as H.
+          destruct (rec_next (top :: q :: b) None) as [stk' tgt'|t|s]; cbn [of_rres]; auto; contradiction.
+  Qed.
 End Sim.
